@@ -245,13 +245,18 @@ class Index:
                 tree = ast.parse(src, filename=rel)
             except SyntaxError as e:
                 raise AnalysisError(f"cannot parse {rel}: {e}")
-            self.canonicalised += _canon_returns(tree) + _canon_augassign(tree) + _canon_items(tree)
             modname = rel[len("src/") : -3].replace("/", ".")
             if modname.endswith(".__init__"):
                 modname = modname[: -len(".__init__")]
             mi = ModuleInfo(modname, rel, tree, src)
             self.modules[modname] = mi
             self.by_path[rel] = mi
+        # normal form (DESIGN section 10): private helpers no rule anchors on are spliced into their callers, then the
+        # spelling-level normal forms are applied; real tree and overlays alike
+        from .normalform import inline_private_helpers
+        self.inlined = inline_private_helpers({mi.path: mi.tree for mi in self.modules.values()})
+        for mi in self.modules.values():
+            self.canonicalised += _canon_returns(mi.tree) + _canon_augassign(mi.tree) + _canon_items(mi.tree)
         for mi in self.modules.values():
             self._scan_module(mi)
 
